@@ -88,7 +88,7 @@ BMPString_constraint(const asn_TYPE_descriptor_t *td, const void *sptr,
  * BMPString specific contents printer.
  */
 static ssize_t
-BMPString__dump(const BMPString_t *st,
+BMPString__dump(const BMPString_t *st, int xer_escape,
 		asn_app_consume_bytes_f *cb, void *app_key) {
 	char scratch[128];			/* Scratchpad buffer */
 	char *p = scratch;
@@ -106,7 +106,18 @@ BMPString__dump(const BMPString_t *st,
 				return -1;
 			p = scratch;
 		}
-		if(wc < 0x80) {
+		if(xer_escape && (wc == 0x26 || wc == 0x3c || wc == 0x3e)) {
+			/* X.680 11.15: "&", "<", ">" can not appear as such */
+			const char *esc = (wc == 0x26) ? "&amp;"
+					: (wc == 0x3c) ? "&lt;" : "&gt;";
+			size_t esc_len = strlen(esc);
+			wrote += p - scratch;
+			if(cb(scratch, p - scratch, app_key) < 0
+			|| cb(esc, esc_len, app_key) < 0)
+				return -1;
+			wrote += esc_len;
+			p = scratch;
+		} else if(wc < 0x80) {
 			*p++ = (char)wc;
 		} else if(wc < 0x800) {
 			*p++ = 0xc0 | ((wc >> 6));
@@ -204,7 +215,7 @@ BMPString_encode_xer(const asn_TYPE_descriptor_t *td, const void *sptr,
 	if(!st || !st->buf)
 		ASN__ENCODE_FAILED;
 
-	er.encoded = BMPString__dump(st, cb, app_key);
+	er.encoded = BMPString__dump(st, 1, cb, app_key);
 	if(er.encoded < 0) ASN__ENCODE_FAILED;
 
 	ASN__ENCODED_OK(er);
@@ -221,7 +232,7 @@ BMPString_print(const asn_TYPE_descriptor_t *td, const void *sptr, int ilevel,
 	if(!st || !st->buf)
 		return (cb("<absent>", 8, app_key) < 0) ? -1 : 0;
 
-	if(BMPString__dump(st, cb, app_key) < 0)
+	if(BMPString__dump(st, 0, cb, app_key) < 0)
 		return -1;
 
 	return 0;
